@@ -813,6 +813,12 @@ def float_traces(ctx, n):
         ms = [rng.choice(["true", "true", "over", "poison"]) for _ in range(40)]
         traces.append(run_float(ctx, "GN", kind, "Constant", 0, hyp, ([1, 1], [1, 3]), ms,
                                 rng.randint(2, 6), ctx.seed * 100000 + 5000 + i, solver="PINV"))
+    # GN with a robust kernel (residuals outside the quadratic zone): the recorded previous loss is the robust loss
+    for i in range(3):
+        kind = ["himmelf", "rosen", "expfit"][i % 3]
+        ms = [rng.choice(["true", "true", "over"]) for _ in range(40)]
+        traces.append(run_float(ctx, "GN", kind, "Constant", 0, hyp, ([1, 1], [1, 3]), ms,
+                                rng.randint(2, 4), ctx.seed * 100000 + 6000 + i, kernel=True, solver="PINV"))
     return traces
 
 
